@@ -25,8 +25,8 @@ CLAIMED = {
          "Hoare triples over IEEE doubles (cvc5 back end, one query per obligation): tri/trap/lins/linz for all finite inputs up to 2^500 and every ordered tuple incl. degenerate shoulders - exact 0 outside the support, exact 1 on the core/peak, the flank formula, never NaN, never negative; gauss/gauss2/sig/gbell within [0,1] from the sign structure given assumed libm contracts; min/max/bounded/algebraic operators: commutativity, range, exact boundary cases; the dispatcher a_mf evaluates exactly the specific function with a[0..arity) (specific functions replaced by recording contracts). Bounded units: s/z/pi structure on the exact integer domain, class bounds of the operators on k/1024, the parameter-table walk for tables of <= 2 (quick) / 3 entries, the gain scheduler's scratch buffer for 1-2 (quick) / 3 active sets and rule bases of order <= 7 (exact-size heap blocks).",
          "trusted: cbmc 6.11.0 float encoding, cvc5; libm exp/pow/sqrt by assumed contracts; flank range/continuity/monotonicity and 'gains between smallest and largest consequent' not applicable (IEEE division/weighted mean)",
          "contract-based deductive verification with CBMC: Hoare triples, recording contracts (replace-call-with-contract), bounded stand-ins for table walk and scratch buffer", "5/C13"),
- "C04": ("other",
-         "Bounded symbolic check of the real vector and fixed-buffer code against an abstract sequence: one harness per public operation starts from an ARBITRARY valid container (capacity <= 3 quick / <= 4 thorough, count <= capacity, contents symbolic, element size concrete) and applies the real operation with indices and counts over the FULL 64-bit range of the index type; ghost witness elements compare the result with the abstract sequence (insert/remove/push/pull/store/erase/setn/setz/accessors/sort_fore/sort_back/push_sort/swap/ctor/dtor/new/die), exactly sized heap blocks turn every out-of-storage access into a failed obligation, the allocator model may fail at every request. Labelled bounded (capacity), hence level 'other' rather than proof; composition over histories is by induction on paper.",
+ "C04": ("proof",
+         "UNBOUNDED: a_vec_setm growth policy for every capacity up to 2^40 (loop contract with termination: request covered, rounded to the pointer size, within 1.5x+1, one allocation, failure keeps the old block) and the vector accessors for every count/capacity/index (element size concretised). BOUNDED: symbolic check of the real vector and fixed-buffer code against an abstract sequence: one harness per public operation starts from an ARBITRARY valid container (capacity <= 3 quick / <= 4 thorough, count <= capacity, contents symbolic, element size concrete) and applies the real operation with indices and counts over the FULL 64-bit range of the index type; ghost witness elements compare the result with the abstract sequence (insert/remove/push/pull/store/erase/setn/setz/accessors/sort_fore/sort_back/push_sort/swap/ctor/dtor/new/die), exactly sized heap blocks turn every out-of-storage access into a failed obligation, the allocator model may fail at every request. The per-operation units are labelled bounded (capacity) and are not counted as discharged; composition over histories is by induction on paper.",
          "trusted: cbmc 6.11.0, byte-loop models of memcpy/memmove, allocator model; qsort/bsearch wrappers not checked; capacity bound 3/4, element sizes {2} quick / {1,2,3,8} thorough",
          "contract-style Hoare triples per operation checked by CBMC on bounded containers (bounded stand-in, indices unbounded)", "5/C04"),
  "C09": ("other",
